@@ -25,8 +25,7 @@ def run(ctx):
                         "attach below the node's own subtree is never driven (deleteNode would not terminate); no caller does it",
                         "stop model: restarts are not part of the small-step system (C09_partial says so)"]
     stats = {}
-    U.tree_tie(ctx, stats)
-    U.stop_tie(ctx, stats)
+    U.both_ties(ctx, stats)
 
     if not ctx.coq_property():
         if not any(f.kind == "violation" for f in ctx.findings):
